@@ -96,8 +96,9 @@ type TV struct {
 var ValKinds = []string{VInt, VString, VBytes, VStruct, VLong, VIface, VPtr, VNil, VTags}
 
 // VFloat: float64 values including both zeros. The library decides with reflect.DeepEqual whether an Insert changes anything, so
-// writing -0 over +0 (or the reverse) is a no-op although the two encode differently; the model follows that rule (SameVal), and
-// values read back are compared bit for bit. Only the checks that name it in their value kinds use it.
+// writing -0 over +0 (or the reverse) is a no-op today although the two encode differently; which zero a key holds after such a
+// write is not pinned down by any statement, so the harness never overwrites one zero with the other (World.Insert re-inserts the
+// present value instead; SameVal). Values read back are compared bit for bit. Only the checks that name it use this kind.
 const VFloat = "float"
 
 // ValKindsWithFloat is ValKinds plus VFloat.
